@@ -159,6 +159,18 @@ example : ((chunkRows ((slicesBy exInput (startsOf exInput.length 3)).map (sortS
 example : sortStable exLt exInput =
     [⟨1, 0, 1⟩, ⟨1, 0, 3⟩, ⟨1, 0, 6⟩, ⟨2, 0, 2⟩, ⟨2, 0, 5⟩, ⟨3, 0, 0⟩, ⟨3, 0, 4⟩] := by decide
 
+example : ∃ r, pmsort { lt := exLt, stable := true, exact := true, threads := 3, osf := 2 } exInput = .ok r ∧
+    r.out = sortStable exLt exInput ∧ r.constructed = r.destroyed :=
+  let ⟨r, h1, h2, h3, _⟩ := model_refines_spec { lt := exLt, stable := true, exact := true, threads := 3, osf := 2 }
+    exLt_strictWeak exInput exInput_pos (by decide) (by decide)
+  ⟨r, h1, h2, h3⟩
+
+example : ∃ r, pmsort { lt := exLt, stable := true, exact := false, threads := 4, osf := 3 } exInput = .ok r ∧
+    r.out = sortStable exLt exInput :=
+  let ⟨r, h1, h2, _⟩ := model_refines_spec { lt := exLt, stable := true, exact := false, threads := 4, osf := 3 }
+    exLt_strictWeak exInput exInput_pos (by decide) (by decide)
+  ⟨r, h1, h2⟩
+
 -- (the former OPEN item pmsort_refines_spec is closed by `model_refines_spec`; the C08 correctness theorem
 --  `C08.msp_correct_lists` discharges the hypothesis about multisequence_partition.)
 -- OPEN: schedule_independence — `merge_back_all_schedules` proves it per phase for the asserted window
